@@ -296,46 +296,7 @@ def bodilessJudge (f : List String) (out : String) : String :=
     | _, _, _ => "bad:unparsable:" ++ out
   | _, _ => "bad:unparsable:" ++ out
 
-/-- c18.sniff: blocks ae chunks; out = <ce with gzip> <same|differs:…> <body same|differs>;
-chunks: hex pieces (one Write each), F = Flush, H<code> = WriteHeader -/
-inductive SniffTok where
-  | w (b : Bytes) | f | h (code : Nat)
-
-def parseSniffTok (s : String) : Option SniffTok :=
-  if s = "F" then some .f
-  else if s.startsWith "H" then ((s.drop 1).toString.toNat?).map .h
-  else (Driver.unhex s).map .w
-
-def sniffModel : List String → String
-  | [bl, ae, chunks] =>
-    match parseBlocks bl, Driver.unhex ae, (if chunks = "" then some [] else (chunks.splitOn ",").mapM parseSniffTok) with
-    | some bl, some ae, some ts =>
-      let body := ts.flatMap fun t => match t with
-        | .w b => b
-        | _ => []
-      let i : Inner := { hdr := emptyHdr, body := .raw body, plen := body.length,
-                         ops := ts.map (fun t => match t with
-                           | .w _ => Op.write
-                           | .f => Op.flush
-                           | .h c => Op.hdr c), ret := 0 }
-      let g := gzipRun bl [47, 112, 97, 103, 101] ae i
-      let ce := if g.hdr.ce.isEmpty then "-" else "gzip"
-      let evs := ts.filterMap fun t => match t with
-        | .w b => some (Ev.write b)
-        | .f => some Ev.flush
-        | .h _ => none
-      ce ++ (if gzSniffInput evs = netSniffInput evs then " same" else " differs") ++ " same"
-    | _, _, _ => "bad-case"
-  | _ => "bad-case"
-
-def sniffJudge (_ : List String) (out : String) : String :=
-  match out.splitOn " " with
-  | [_, "same", "same"] => "ok"
-  | [_, _, "same"] => "bad:content-type:enabling gzip changed the status or the Content-Type the client sees for the same handler output"
-  | _ => "bad:decoded-differs:decoding the response does not give the identity body"
-
 def streams : List Driver.Stream := [
-  { name := "c18.sniff", model := sniffModel, judge := sniffJudge },
   { name := "c18.bodiless", model := bodilessModel, judge := bodilessJudge },
   { name := "c18.live", model := liveModel, judge := liveJudge },
   { name := "c18.range", model := rangeModel, judge := rangeJudge },
